@@ -199,7 +199,7 @@ func segCrossesRectInterior(a, b P, r RectJ) bool {
 
 func init() {
 	defProp("C11",
-		"rapid-generated non-empty rectangles x 1-3 open polylines of 2-8 points (one third two-point segments) with vertices drawn from rectangle corners, edges and their extensions, inside, one unit off a corner, around and far; RectClipLinesPaths64 and RectClipLinesPath64; oracle: every result path has >= 2 points, lies within the rectangle enlarged by 1, is a sub-polyline of one input line (vertices within 1 unit, in input order, segment midpoints within 1.5 units: nothing is closed up or bridged); sample points of input segments farther than 5 units from the rectangle boundary are within 2 units of the result exactly when inside the rectangle; a two-point line through the interior yields exactly one two-point piece; non-trivial = a segment properly crosses the rectangle boundary and covered as well as uncovered sample points were judged",
+		"rapid-generated non-empty rectangles (extent 20 .. 2^27, 2^33, 2^40) x 1-3 open polylines of 2-8 points (one third two-point segments) with vertices drawn from rectangle corners, edges and their extensions, inside, one unit off a corner, around and far; RectClipLinesPaths64 and RectClipLinesPath64; oracle: every result path has >= 2 points, lies within the rectangle enlarged by 1, is a sub-polyline of one input line (vertices within 1 unit, in input order, segment midpoints within 1.5 units: nothing is closed up or bridged); sample points of input segments farther than 5 units from the rectangle boundary are within 2 units of the result exactly when inside the rectangle; a two-point line through the interior yields exactly one two-point piece; non-trivial = a segment properly crosses the rectangle boundary and covered as well as uncovered sample points were judged",
 		[]string{"sample points closer than 5 units to the rectangle boundary are not judged (a sound subset of the statement's 2 units)"},
 		drawC11, judgeC11)
 }
